@@ -16,6 +16,8 @@
 (*  C04  no stop callback is still registered on the receiver's token when *)
 (*       the receiver is completed, and no leaf observes a stop request    *)
 (*       after the receiver was completed.                                 *)
+(*  C20  (async-stack builds) the calling thread's async stack root is     *)
+(*       restored at every quiescent point.                                *)
 (* IOEnv.PROP selects the rule set ("ALL" = every rule).                   *)
 (***************************************************************************)
 EXTENDS Naturals, Sequences, FiniteSets, TLC, TraceIO
@@ -79,6 +81,7 @@ Other == /\ (Is("OpDestroy") \/ Is("ExtStop"))
          /\ UNCHANGED <<started, startOpen, connectThrew, rootCount, afterRoot, leafLive, leafRunning, allocs>>
 QuiescentEv == /\ Is("Quiescent")
                /\ On("C01") => ((started /\ ~connectThrew /\ E.pending = 0) => rootCount = 1)
+               /\ On("C20") => E.asr = 0       \* async-stack roots are restored at every quiescent point
                /\ UNCHANGED <<started, startOpen, connectThrew, rootCount, afterRoot, leafLive, leafRunning, allocs>>
 Alloc == /\ Is("Alloc") /\ allocs' = [allocs EXCEPT ![E.tag] = @ + 1]
          /\ UNCHANGED <<started, startOpen, connectThrew, rootCount, afterRoot, leafLive, leafRunning>>
